@@ -91,24 +91,28 @@ theorem run_params (vo : VOps V) (ops : List (Op V)) (st : St V) (hb : Bound st)
     rw [run_cons, ih _ (step_bound vo st op hb), step_params vo st op hb]
     simp [List.append_assoc]
 
-/-- uniqueness at the end of a history gives uniqueness (hence the full invariant) all the way -/
+/-- every update of the history goes through the youngest value object on its (prefix, key); `ids` = the (prefix, key)
+    of the value objects constructed so far -/
+def OpsOK : List (Str × Key) → List (Op V) → Prop
+  | _, [] => True
+  | ids, o :: r => OpOK ids o ∧ OpsOK (ids ++ (newParams o).map idOf) r
+
+theorem idsOf_step (vo : VOps V) (st : St V) (op : Op V) (hb : Bound st) :
+    idsOf (step vo st op).1 = idsOf st ++ (newParams op).map idOf := by
+  have := congrArg (List.map idOf) (step_params vo st op hb)
+  rw [List.map_map, List.map_append, List.map_map] at this
+  exact this
+
+/-- the invariant holds along every history whose updates go through the youngest object on each key -/
 theorem run_inv (vo : VOps V) (ops : List (Op V)) (st : St V) (h : Inv vo st)
-    (hu : ((run vo st ops).values.map (fun v => idOf v.params)).Nodup) : Inv vo (run vo st ops) := by
+    (hok : OpsOK (idsOf st) ops) : Inv vo (run vo st ops) := by
   induction ops generalizing st with
   | nil => exact h
   | cons op r ih =>
-    rw [run_cons] at hu ⊢
-    apply ih _ _ hu
-    apply step_inv vo st op h
-    have hb1 := step_bound vo st op h.bound
-    have e := run_params vo r _ hb1
-    have e' : (run vo (step vo st op).1 r).values.map (fun v => idOf v.params)
-        = (step vo st op).1.values.map (fun v => idOf v.params) ++ (r.flatMap newParams).map idOf := by
-      have := congrArg (List.map idOf) e
-      rw [List.map_map, List.map_append, List.map_map] at this
-      exact this
-    rw [e'] at hu
-    exact (List.nodup_append.mp hu).1
+    rw [run_cons]
+    apply ih _ (step_inv vo st op h hok.1)
+    rw [idsOf_step vo st op h.bound]
+    exact hok.2
 
 /-! ### the log of updates to one series -/
 
@@ -161,28 +165,19 @@ theorem idsOK_tail (pid0 : Str) (op : Op V) (ops : List (Op V)) (h : IdsOK pid0 
 
 /-- **every identity's cell is the fold of that identity's own updates**, continuing from what the cell held -/
 theorem run_cell (vo : VOps V) (pre : Str) (k : Key) (p : Str) (hp : '_' ∉ p) (ops : List (Op V)) (st : St V)
-    (h : Inv vo st) (hu : ((run vo st ops).values.map (fun v => idOf v.params)).Nodup) (hids : IdsOK st.actual ops) :
+    (h : Inv vo st) (hok : OpsOK (idsOf st) ops) (hids : IdsOK st.actual ops) :
     cellVal vo (run vo st ops).disk (fileName pre p) k
       = (updLog vo pre k st.actual (st.values.map (·.params)) ops).foldl (ownStep vo p)
           (cellVal vo st.disk (fileName pre p) k) := by
   induction ops generalizing st with
   | nil => rfl
   | cons op r ih =>
-    rw [run_cons] at hu ⊢
-    have hb1 := step_bound vo st op h.bound
-    have hinv1 : Inv vo (step vo st op).1 := by
-      apply step_inv vo st op h
-      have e := run_params vo r _ hb1
-      have e' : (run vo (step vo st op).1 r).values.map (fun v => idOf v.params)
-          = (step vo st op).1.values.map (fun v => idOf v.params) ++ (r.flatMap newParams).map idOf := by
-        have := congrArg (List.map idOf) e
-        rw [List.map_map, List.map_append, List.map_map] at this
-        exact this
-      rw [e'] at hu
-      exact (List.nodup_append.mp hu).1
+    rw [run_cons]
+    have hinv1 : Inv vo (step vo st op).1 := step_inv vo st op h hok.1
+    have hok1 : OpsOK (idsOf (step vo st op).1) r := by rw [idsOf_step vo st op h.bound]; exact hok.2
     have hact := step_actual vo st op h.bound
     have hids1 : IdsOK (step vo st op).1.actual r := by rw [hact]; exact idsOK_tail _ op r hids
-    rw [ih _ hinv1 hu hids1, step_cell vo st op h, step_params vo st op h.bound, hact]
+    rw [ih _ hinv1 hok1 hids1, step_cell vo st op h hok.1, step_params vo st op h.bound, hact]
     have hgi : ∀ i, (st.values.map (fun (v : ValueObj V) => v.params))[i]? = st.values[i]?.map (fun (v : ValueObj V) => v.params) :=
       fun i => List.getElem?_map
     cases op with
